@@ -124,6 +124,11 @@ def _beta(n):
         lam, args = SX.strip(n['calleeExpr']), n.get('args', [])
     elif n.get('k') == 'opcall' and n.get('op') == '()' and n.get('args') and SX.is_node(SX.strip(n['args'][0])) and SX.strip(n['args'][0]).get('k') == 'lambda':
         lam, args = SX.strip(n['args'][0]), n['args'][1:]
+    if n.get('k') == 'member':
+        b_ = SX.strip(n.get('base'))
+        if SX.is_node(b_) and b_.get('k') == 'initlist' and b_.get('fields') and n.get('name') in b_['fields'] and len(b_['fields']) == len(b_.get('items', [])) \
+                and all(pure(it_) for it_ in b_['items']):
+            return b_['items'][b_['fields'].index(n['name'])]      # `T{a, b}.second` is b
     if lam is not None:
         body = lam.get('body')
         st = body.get('body') if SX.is_node(body) and body.get('k') == 'block' else None
@@ -579,7 +584,10 @@ def _sroa(prog, body):
         if not rec or (v.get('type') or '').rstrip().endswith(('&', '*')):
             continue
         fields = rec.get('fields', [])
-        if not fields or not all(_base_type(f_['type']) in SCALARS for f_ in fields) or rec.get('bases'):
+        if not fields or rec.get('bases') or any(f_.get('static') for f_ in fields):
+            continue
+        if not all(_base_type(f_['type']) in SCALARS or _base_type(f_['type']).endswith('*') or _base_type(f_['type']).startswith(('std::string', 'std::basic_string'))
+                   for f_ in fields):
             continue
         init = SX.strip(v.get('init')) if SX.is_node(v.get('init')) else None
         vals = None
@@ -626,7 +634,7 @@ def _sroa(prog, body):
                     _, fields, vals = cands[v['id']]
                     for f_ in fields:
                         nd.append({'k': 'var', 'id': '%s#%s' % (v['id'], f_['name']), 'name': '%s.%s' % (v.get('name', ''), f_['name']), 'type': _base_type(f_['type']),
-                                   'init': rw(vals[f_['name']]), 'ln': v.get('ln'), 'col': v.get('col')})
+                                   'init': rw(vals[f_['name']]), 'ln': v.get('ln'), 'col': v.get('col'), 'from_param': True, 'sroa': True})
                 else:
                     nd.append(rw(v))
             return dict(n, d=nd)
@@ -691,6 +699,61 @@ def _writes_of(s):
                         continue
                     ws.add(('arg', a_.get('id')))
     return ws
+
+
+def _merge_init(body):
+    """`T v = <literal>;` followed in the same block — before any other mention of v — by `v = E;` (E not mentioning v): `T v = E;`
+    (records filled field by field after default construction, once scalarised)"""
+    cnt = [0]
+
+    def mentions(n, vid):
+        return any(x.get('k') == 'ref' and x.get('id') == vid for x in SX.walk(n))
+
+    def block(b):
+        if isinstance(b, list):
+            return [block(x) for x in b]
+        if not isinstance(b, dict) or b.get('k') == 'lambda':
+            return b
+        b = {k: (block(v) if isinstance(v, (dict, list)) else v) for k, v in b.items()}
+        if b.get('k') != 'block':
+            return b
+        top = list(b['body'])
+        changed = True
+        while changed:
+            changed = False
+            # split multi-variable declaration statements produced by scalarisation
+            flat = []
+            for st in top:
+                if st.get('k') == 'decls' and len(st['d']) > 1 and all(v.get('sroa') for v in st['d']):
+                    flat.extend({'k': 'decls', 'ln': st.get('ln'), 'd': [v]} for v in st['d'])
+                else:
+                    flat.append(st)
+            top = flat
+            for i, st in enumerate(top):
+                if st.get('k') != 'decls' or len(st['d']) != 1:
+                    continue
+                v = st['d'][0]
+                init = SX.strip(v.get('init')) if SX.is_node(v.get('init')) else None
+                if init is None or init.get('k') not in ('bool', 'int', 'float', 'nullptr', 'str', 'char') or not v.get('sroa'):
+                    continue
+                for j in range(i + 1, len(top)):
+                    s2 = top[j]
+                    if s2.get('k') == 'expr':
+                        w = SX.write_target(SX.strip(s2.get('e')))
+                        if w and w[2] == '=' and SX.is_node(SX.strip(w[0])) and SX.strip(w[0]).get('k') == 'ref' and SX.strip(w[0]).get('id') == v['id'] \
+                                and not mentions(w[1], v['id']):
+                            top[i] = dict(st, d=[dict(v, init=w[1])])
+                            del top[j]
+                            cnt[0] += 1
+                            changed = True
+                            break
+                    if mentions(s2, v['id']):
+                        break
+                if changed:
+                    break
+        return dict(b, body=top)
+    nb = block(body)
+    return nb, cnt[0]
 
 
 def _copyprop(body):
@@ -765,6 +828,8 @@ def normalise(prog, f, depth=3, keep=(), only=None):
             if inl.renames:
                 nb = _rename_refs(nb, inl.renames, _names_of(nb, f.params))
             nb, ns = _sroa(prog, nb)
+            if ns:
+                nb, _nm = _merge_init(nb)
             _PROG[0] = prog
             _PARAMS[0] = f.params
             nb, nc = _copyprop(nb)
